@@ -46,6 +46,9 @@ impl CompInfo {
     #[verifier::external_body] pub fn kind(&self) -> (r: CompKind) ensures r == self.s_kind() { unimplemented!() }
     #[verifier::external_body] pub fn self_template_params(&self, ctx: &BindgenContext) -> (r: Vec<TypeId>) ensures (r@.len() == 0) == self.s_self_tparams_empty(ctx) { unimplemented!() }
     #[verifier::external_body] pub fn has_too_large_bitfield_unit(&self) -> (r: bool) ensures r == self.s_large_bitfield_unit() { unimplemented!() }
+    // info.is_packed(ctx, ty.layout(ctx).as_ref()): packed attribute, or #pragma pack seen through the layout of `ty`
+    pub uninterp spec fn s_packed(&self, ctx: &BindgenContext, ty: &Type) -> bool;
+    #[verifier::external_body] pub fn is_packed_for(&self, ctx: &BindgenContext, ty: &Type) -> (r: bool) ensures r == self.s_packed(ctx, ty) { unimplemented!() }
 }
 
 #[verifier::external_body]
@@ -70,7 +73,14 @@ impl Item {
     #[verifier::external_body] pub fn is_opaque(&self, ctx: &BindgenContext, _e: &()) -> (r: bool) ensures r == self.s_opaque(ctx) { unimplemented!() }
     #[verifier::external_body] pub fn all_template_params(&self, ctx: &BindgenContext) -> (r: Vec<TypeId>) ensures (r@.len() == 0) == self.s_all_tparams_empty(ctx) { unimplemented!() }
     #[verifier::external_body] pub fn has_vtable(&self, ctx: &BindgenContext) -> (r: bool) ensures r == self.s_has_vtable(ctx) { unimplemented!() }
+    // the finished Copy analysis (it runs before the other traits') and the `nocopy` annotation: does the item GET Copy
+    pub uninterp spec fn s_can_derive_copy(&self, ctx: &BindgenContext) -> bool;
+    pub uninterp spec fn s_disallow_copy(&self) -> bool;
+    #[verifier::external_body] pub fn can_derive_copy(&self, ctx: &BindgenContext) -> (r: bool) ensures r == self.s_can_derive_copy(ctx) { unimplemented!() }
+    #[verifier::external_body] pub fn annotations(&self) -> (r: Annotations) ensures r.nocopy == self.s_disallow_copy() { unimplemented!() }
 }
+pub struct Annotations { pub nocopy: bool }
+impl Annotations { pub fn disallow_copy(&self) -> (r: bool) ensures r == self.nocopy { self.nocopy } }
 
 pub struct BindgenOptions { pub untagged_union: bool }
 
